@@ -20,6 +20,14 @@ func (b Bundle) Fragment(mtu int) (bs []Bundle, err error) {
 		return
 	}
 
+	// A Bundle which already fits is returned as itself; the overhead estimation below is for fragments only.
+	buff := new(bytes.Buffer)
+	if err = b.MarshalCbor(buff); err != nil {
+		return
+	} else if buff.Len() <= mtu {
+		return []Bundle{b}, nil
+	}
+
 	var (
 		cborOverhead     = 2
 		extFirstOverhead int
